@@ -20,6 +20,7 @@ package main
 // detector sees them without the happens-before edges the counter adds.
 
 import (
+	"bytes"
 	"encoding/json"
 	"fmt"
 	"os"
@@ -50,6 +51,8 @@ type C17Spec struct {
 	// Cold: the programs' first operation is the first thing this process asks of the registry
 	// (no dump of its initial content, which is taken to be the six documented built-ins)
 	Cold bool `json:"cold,omitempty"`
+	// Shape of every table the world makes (c17_util.go: 0 the good table, 1.. tables without columns)
+	Shape int `json:"shape,omitempty"`
 }
 
 type C17Ev struct {
@@ -74,6 +77,34 @@ type c17op struct {
 	name string
 }
 
+// the shape of every table this (child) process makes; whether its programs run one at a time
+var (
+	c17Shape      int
+	c17Sequential bool
+)
+
+// Render() named by the palette (for this shape), cross-checked with RenderTo
+func c17Render(tt *texttable.TextTable) RRes {
+	r := renderRes(tt.Render, shapeOutToID[c17Shape])
+	if r.K == "panic" {
+		return r
+	}
+	func() {
+		defer func() {
+			if p := recover(); p != nil {
+				r = RRes{K: "panic", Msg: fmt.Sprint("RenderTo: ", p)}
+			}
+		}()
+		out, err := tt.Render()
+		var b bytes.Buffer
+		err2 := tt.RenderTo(&b)
+		if (err == nil) != (err2 == nil) || (err == nil && b.String() != out) {
+			r = RRes{K: "panic", Msg: fmt.Sprintf("Render (%q, %v) and RenderTo (%q, %v) disagree", out, err, b.String(), err2)}
+		}
+	}()
+	return r
+}
+
 func c17Exec(op c17op, tabs *[]*texttable.TextTable) (ev C17Ev) {
 	ev.Op = op.C17Op
 	switch op.K {
@@ -94,28 +125,46 @@ func c17Exec(op c17op, tabs *[]*texttable.TextTable) (ev C17Ev) {
 		}
 		scribble(l)
 	case "set":
-		tt := texttable.Wrap(goodTable())
+		tt := texttable.Wrap(shapeTable(c17Shape))
 		_, err := tt.SetDecorationNamed(op.name)
 		ev.SetErr = err != nil
-		r := renderRes(tt.Render, outToID)
+		r := c17Render(tt)
 		ev.R = &r
 		*tabs = append(*tabs, tt)
 	case "auto":
-		rt := auto.New(op.P + op.name)
+		// auto.New + fill and auto.Wrap of a filled table in turn; auto.Render and
+		// auto.RenderTo of another such table must say the same
+		style := op.P + op.name
+		var rt auto.RenderTable
+		if len(*tabs)%2 == 0 {
+			rt = auto.New(style)
+			fillShape(rt, c17Shape)
+		} else {
+			rt = auto.Wrap(shapeTable(c17Shape), style)
+		}
 		tt, isText := rt.(*texttable.TextTable)
 		if !isText {
-			ev.R = &RRes{K: "panic", Msg: fmt.Sprintf("auto.New(%q) is a %T", op.P+op.name, rt)}
-			tt = texttable.Wrap(goodTable())
+			ev.R = &RRes{K: "panic", Msg: fmt.Sprintf("auto.New/Wrap(%q) is a %T", style, rt)}
+			tt = texttable.Wrap(shapeTable(c17Shape))
 		} else {
-			rt.AddHeaders("h1", "h2")
-			rt.AddRowItems("a", "b")
-			r := renderRes(tt.Render, outToID)
+			r := c17Render(tt)
+			if c17Sequential {
+				// (each of these looks the name up for itself: comparable only when nobody
+				// else is registering meanwhile)
+				out1, err1 := rt.Render()
+				out2, err2 := auto.Render(shapeTable(c17Shape), style)
+				var b bytes.Buffer
+				err3 := auto.RenderTo(shapeTable(c17Shape), &b, style)
+				if (err1 == nil) != (err2 == nil) || (err1 == nil) != (err3 == nil) || out1 != out2 || (err3 == nil && b.String() != out1) {
+					r = RRes{K: "panic", Msg: fmt.Sprintf("auto.Render / auto.RenderTo (%q, %v / %q, %v) disagree with the wrapper's Render (%q, %v) for style %q", out2, err2, b.String(), err3, out1, err1, style)}
+				}
+			}
 			ev.R = &r
 		}
 		*tabs = append(*tabs, tt)
 	case "render":
 		if op.I >= 0 && op.I < len(*tabs) {
-			r := renderRes((*tabs)[op.I].Render, outToID)
+			r := c17Render((*tabs)[op.I])
 			ev.R = &r
 		}
 	case "reset":
@@ -123,14 +172,14 @@ func c17Exec(op c17op, tabs *[]*texttable.TextTable) (ev C17Ev) {
 			tt := (*tabs)[op.I]
 			_, err := tt.SetDecorationNamed(op.name)
 			ev.SetErr = err != nil
-			r := renderRes(tt.Render, outToID)
+			r := c17Render(tt)
 			ev.R = &r
 		}
 	case "setdec":
 		if op.I >= 0 && op.I < len(*tabs) {
 			tt := (*tabs)[op.I]
 			tt.SetDecoration(regPalette[op.D])
-			r := renderRes(tt.Render, outToID)
+			r := c17Render(tt)
 			ev.R = &r
 		}
 	default:
@@ -174,6 +223,11 @@ func c17Worker() {
 	if err := json.NewDecoder(os.Stdin).Decode(&spec); err != nil {
 		panic(err)
 	}
+	if spec.Shape < 0 || spec.Shape >= c17Shapes {
+		panic("no such table shape")
+	}
+	c17Shape = spec.Shape
+	c17Sequential = spec.Mode == "seq"
 	progs := c17Decode(spec.Progs)
 	var out C17Out
 	if spec.Cold {
@@ -773,8 +827,19 @@ func c17Run(spec json.RawMessage) CaseOut {
 	}
 	initC := c17InitCoq(nt, out.Init)
 	bad := cr.Race || cr.Crash || out.RawBad != ""
-	body := fmt.Sprintf("mkC17 %s %s %s [\n   %s]", cqBool(sp.Mode == "seq"), cqBool(bad), initC, strings.Join(evs, ";\n   "))
+	var reps []string
+	if sp.Shape > 0 && sp.Shape < c17Shapes {
+		for i, rp := range shapeRep[sp.Shape] {
+			if rp != i {
+				reps = append(reps, cqPair(cqN(uint64(i)), cqN(uint64(rp))))
+			}
+		}
+	}
+	body := fmt.Sprintf("mkC17s %s %s %s %s [\n   %s]", cqList(reps), cqBool(sp.Mode == "seq"), cqBool(bad), initC, strings.Join(evs, ";\n   "))
 	tags := []string{"mode=" + sp.Mode, fmt.Sprintf("goroutines=%d", len(sp.Progs))}
+	if sp.Shape >= 0 && sp.Shape < c17Shapes {
+		tags = append(tags, "tables="+shapeNames[sp.Shape])
+	}
 	if sp.Cold {
 		tags = append(tags, "cold-start(first registry operation is the program's)")
 	}
@@ -886,7 +951,7 @@ func c17KeywordWorld(r *RNG) C17Spec {
 // a name to read: one of the pool, or one that merely resembles it
 func c17ReadName(r *RNG, names []string) string {
 	n := pick(r, names)
-	switch r.Intn(10) {
+	switch r.Intn(12) {
 	case 0:
 		return n + "x"
 	case 1:
@@ -894,6 +959,16 @@ func c17ReadName(r *RNG, names []string) string {
 	case 2:
 		if len(n) > 0 {
 			return n[:len(n)-1]
+		}
+	case 3:
+		// the registry is case-sensitive: another case is another (unregistered) name
+		if u := strings.ToUpper(n); u != n {
+			return u
+		}
+		return strings.ToLower(n)
+	case 4:
+		if len(n) > 0 && n[0] >= 'a' && n[0] <= 'z' {
+			return strings.ToUpper(n[:1]) + n[1:]
 		}
 	}
 	return n
@@ -1046,7 +1121,7 @@ func c17GrowthWorld(r *RNG, n int) C17Spec {
 			p = append(p, C17Op{K: "named", N: qname(pick(r, have))}, C17Op{K: "set", N: qname(pick(r, have))})
 		}
 		// what merely resembles a registered name names nothing
-		for _, nm := range []string{name + "x", name + "such", name[:len(name)-1], pick(r, []string{"none", "utf8-light", "ascii-simple", "utf8-double"}) + pick(r, []string{"r", "d", "2", "-v2"})} {
+		for _, nm := range []string{name + "x", name + "such", name[:len(name)-1], strings.ToUpper(name), pick(r, []string{"NONE", "Utf8-light", "ASCII-SIMPLE", "None"}), pick(r, []string{"none", "utf8-light", "ascii-simple", "utf8-double"}) + pick(r, []string{"r", "d", "2", "-v2"})} {
 			if r.Pct(30) && autoQualOK(nm) {
 				p = append(p, C17Op{K: "auto", P: pick(r, c17Qualifiers), N: qname(nm)})
 			} else if r.Bool() && autoOK(nm) {
@@ -1064,6 +1139,9 @@ func c17Gen(r *RNG, tier string) []json.RawMessage {
 	var out []json.RawMessage
 	add := func(s C17Spec) {
 		s.Cold = len(out)%2 == 1 // every other world: nothing has consulted the registry before its first operation
+		// the shape of the world's tables: the good table, or one of four without any column
+		// (what is drawn is the frame only; the refusal of an unknown name must not depend on it)
+		s.Shape = []int{0, 1, 2, 3, 4, 0, 0}[len(out)%7]
 		out = append(out, mustJSON(s))
 	}
 	// (a) every sequential history of length L over a reduced alphabet
@@ -1245,7 +1323,9 @@ func init() {
 		CaseType: "c17_case",
 		CaseFn:   "C17_case",
 		ModelFn:  "C17_model",
-		Rule: "registry worlds, one child process each (the registry is process-global): every sequential history of the enumerated length over " +
+		Rule: "registry worlds, one child process each (the registry is process-global); all tables of a world have one shape - the good table (3 worlds in 7) or one without any column " +
+			"(no rows; separators only; a row left empty; rows of no items: 1 in 7 each) - and every Render is cross-checked with RenderTo, every auto.New/auto.Wrap with auto.Render and auto.RenderTo (sequential worlds); " +
+			"names are also asked in another case (the registry is case-sensitive): every sequential history of the enumerated length over " +
 			"{reg n d, named n, set n | n in {none (built-in), x}, d in {a complete decoration, EmptyDecoration}} + names + render 0; every per-table sequence " +
 			"'select by name (SetDecorationNamed or auto.New; the unknown name is a registered name plus a suffix), then 3 (thorough 4) of {SetDecorationNamed(unknown|built-in), SetDecoration(complete|field-by-field), Register(unknown,d|d'), Register(built-in,d'), Render}' " +
 			"(24 sequences per world, fresh unknown name and table each); worlds growing to 4-22 (thorough 40) registered names with RegisteredDecorationNames / auto.ListStyles " +
